@@ -52,4 +52,10 @@ CHECKS = {
                  "on hinge families folded at angles swept on both sides of the two thresholds (down to 1e-7 rad, crease declared hard or not) and on zoo "
                  "meshes, its edge set compared with a reference dihedral test and its derived data checked for consistency.",
          "design_ref": "DESIGN.md section 6 C15", "note": _NOTE, "technique": "runtime monitoring: reference-model differential oracle with threshold-sweep workloads"},
+ "C16": {"text": "Reference-model monitor on SingularityCutter: for generated connected triangulations (genus 0-2, 0-4 border loops, hinge strips with "
+                 "feature edges) and singularity sets of every kind, the cut mesh must carry the input faces in order with bit-identical corner positions, "
+                 "be a disk by the reference analyser (or an unchanged sphere), have every singular vertex on its border, a vertex map that is onto and "
+                 "consistent face by face, no opened edge outside cut_edges, and cut_edges must contain the border and be connected.",
+         "design_ref": "DESIGN.md section 6 C16", "note": _NOTE + " Two genuine defects are recorded as known findings (K-C16-1, K-C16-2).",
+         "technique": "runtime monitoring: reference analyser + structural oracle on the cut mesh"},
 }
